@@ -144,6 +144,66 @@ def r15d(ctx):
                nontrivial=False)
 
 
+# intended meaning of the built-in constraints (confirmed by reading cost/pattern.py and the
+# README; frozen here): name -> predicate on a concrete spec
+CONSTRAINT_MEANING = {
+    'conv_dw_constraint': lambda sp: sp['in_channels'] == sp['groups'] and
+    sp['out_channels'] == sp['groups'],
+    'conv_3_constraint': lambda sp: all(k == 3 for k in sp['kernel_size']),
+}
+
+
+def r15f(ctx):
+    """"The constrained pattern the layer satisfies": each built-in constraint of
+    cost/pattern.py is interpreted (finite interpreter, no execution of the library) on a grid
+    of concrete layer specs and must return exactly the truth value its pattern means -- a
+    constraint that is always truthy makes the lookup return the constrained model for layers
+    that do not satisfy the pattern, in every registration order."""
+    repo = ctx.repo
+    mod = repo.modules['plinio.cost.pattern']
+    fdefs = {n.name: n for n in mod.tree.body if isinstance(n, ast.FunctionDef)}
+    used = set()
+    for name, sts in mod.assigns.items():
+        for st in sts:
+            v = getattr(st, 'value', None)
+            if isinstance(v, ast.Tuple) and len(v.elts) == 2 and isinstance(v.elts[1], ast.Name):
+                used.add(v.elts[1].id)
+    grid = []
+    for cin, cout, g in ((4, 4, 4), (4, 8, 4), (8, 4, 4), (4, 4, 1), (4, 4, 2), (1, 1, 1)):
+        for k in ((3,), (5,), (1,), (3, 3), (3, 5), (5, 3), (1, 3), (5, 5), (1, 1)):
+            grid.append({'in_channels': cin, 'out_channels': cout, 'groups': g,
+                         'kernel_size': k, 'stride': (1,) * len(k), 'in_features': cin,
+                         'out_features': cout})
+    n = 0
+    for name in sorted(used):
+        fd = fdefs.get(name)
+        ref = CONSTRAINT_MEANING.get(name)
+        if fd is None or ref is None:
+            ctx.note(f'constraint {name} has no recorded meaning: not interpreted')
+            continue
+        n += 1
+        bad = None
+        try:
+            for sp in grid:
+                got = Mini({}).call_function(fd, [dict(sp)])
+                if got is not ref(sp):
+                    bad = (sp, got)
+                    break
+        except (Unsupported, Raised) as ex:
+            raise AnalysisError(f'R15f: {name} uses a construct outside the interpreted subset: '
+                                f'{ex}')
+        ctx.ob('R15f', f'{name} decides its pattern', bad is None,
+               f'agrees with its meaning on {len(grid)} layer specs' if bad is None else
+               f'for in/out/groups = {bad[0]["in_channels"]}/{bad[0]["out_channels"]}/'
+               f'{bad[0]["groups"]}, kernel {bad[0]["kernel_size"]} the constraint returns '
+               f'{bad[1]!r} but the layer does '
+               f'{"" if ref(bad[0]) else "not "}satisfy the pattern: the lookup returns the '
+               f'constrained model for a layer outside the pattern (or raises a conflict with '
+               f'another pattern that really matches), whatever the registration order',
+               f'{mod.relpath}:{fd.lineno}')
+    ctx.floor('R15f', 'built-in constraints with a recorded meaning', n, 2)
+
+
 def r15e(ctx):
     """The exported pattern tuples of cost/pattern.py name distinct patterns: no two public
     names denote the same (layer type, constraint) pair — registering a function under each
@@ -186,6 +246,7 @@ def r15e(ctx):
 def run(ctx):
     r15d(ctx)
     r15e(ctx)
+    r15f(ctx)
     repo = ctx.repo
     ci = repo.cls('CostSpec')
     init, setitem, getitem = (_class_fn(ci, n) for n in ('__init__', '__setitem__', '__getitem__'))
